@@ -97,7 +97,7 @@ func timedSweep(h *hctx, tag string, cases []timedCase) {
 
 func c04Variants(h *hctx) []timedCase {
 	cd := time.Duration(h.pi("cooldown_ms", 12)) * time.Millisecond
-	mk := func(name string, kind, mx, tg int, cooldown time.Duration, body func(r *bufRun, gap time.Duration)) timedCase {
+	mk := func(name string, kind, mx, tg int, cooldown time.Duration, body func(r *bufRun, gap time.Duration), after ...func(r *bufRun, id string, size int)) timedCase {
 		return timedCase{name: name, delay: cooldown*5/2 + 3*time.Millisecond, hits: 3,
 			run: func(h *hctx, id string, inject time.Duration) {
 				r := newBufRun(h, kind, mx, tg, cooldown)
@@ -107,9 +107,13 @@ func c04Variants(h *hctx) []timedCase {
 				// window) plus scheduling latency, with no further operation
 				time.Sleep(inject + 2*cooldown + 25*time.Millisecond)
 				r.settle()
-				r.exec([]int{14}, func() []int { return []int{7, r.b.Size()} })
+				var size int
+				r.exec([]int{14}, func() []int { size = r.b.Size(); return []int{7, size} })
 				r.exec([]int{9}, func() []int { return valsOut(8, r.b.Slice()) })
 				r.record(id, []int{kind, mx, tg})
+				for _, f := range after {
+					f(r, id, size)
+				}
 				for _, cancel := range r.getStop {
 					cancel()
 				}
@@ -213,6 +217,28 @@ func c04Variants(h *hctx) []timedCase {
 			r.put(3, false)
 			commitN(r, 0, 2)
 		}),
+		func() timedCase {
+			// The property's first clause, stated directly (it is not restricted to the default cleaner): one consumer
+			// reads and commits everything that was put, all inside the cooldown window opened by NewConsumer, then
+			// nothing happens any more.  Every value is a prefix the only open consumer has committed past.
+			consumedAll := false
+			return mk("fixedconsumed", 1, 2, 2, cd, func(r *bufRun, gap time.Duration) {
+				consumedAll = false
+				r.newConsumer()
+				r.put(10, false)
+				for i := 0; i < 10; i++ {
+					r.get(0)
+				}
+				ok := r.delta[0] == 10 && len(r.pendGet) == 0
+				c := r.exec([]int{5, 0}, func() []int { return errOut(r.cons[0].Commit()) })
+				consumedAll = ok && c.returned() && c.out[0] == 3
+			}, func(r *bufRun, id string, size int) {
+				if consumedAll && size != 0 {
+					h.line("MONITOR C04 FixedBufferCleaner(2,2): %d values that the only open consumer has committed past (10 of 10 read and committed) are still held after the buffer went quiet (%s)", size, id)
+				}
+				h.count("c04_fixedconsumed_all_consumed", boolInt(consumedAll))
+			})
+		}(),
 		mk("fixed", 1, 3, 2, cd, func(r *bufRun, gap time.Duration) {
 			r.newConsumer()
 			r.put(2, false)
